@@ -11,7 +11,9 @@ using namespace chenv;
 union AsmBox { BaseAssembler a; AsmBox() noexcept {} ~AsmBox() noexcept {} };
 static AsmBox abox;
 static int reports;
-alignas(16) static uint8_t arena_bytes[512];
+// 96 bytes: RelocEntry + Fixup / Expression. Small enough for CBMC to track every byte separately (spec: --max-field-sensitivity-array-size 128),
+// so what new_reloc_entry / new_fixup write (relocation type, list links) stays concrete for the symbolic executor.
+alignas(16) static uint8_t arena_bytes[96];
 
 static BaseAssembler* make_asm(CodeHolder* c, uint32_t sid, uint32_t pos) {
   BaseAssembler* a = &abox.a;
@@ -39,13 +41,13 @@ static void symbolic_buffers() { for (uint32_t j = 0; j < 32; j++) { sbuf[0][j] 
 
 // ---------------------------------------------------------------------------------------------------------------------
 // embed_label(label, DS) -> [bind_label] -> relocate_to_base(base): the DS-byte field holds base + section offset + label offset.
-template<uint32_t DS>
-static void embed_label_flow() {
+template<uint32_t DS, uint32_t SID>
+static void embed_label_flow_s() {
   bool x64 = nondet_bool();
   CodeHolder* c = make_holder(x64 ? Arch::kX64 : Arch::kX86, 2);
   symbolic_buffers();
   constexpr uint32_t pos = 4;
-  uint32_t sid = nondet_bool() ? 1 : 0;
+  constexpr uint32_t sid = SID;   // concrete per instantiation: a symbolic emitting section makes the cursor arithmetic symbolic
   BaseAssembler* a = make_asm(c, sid, pos);
   bool bound = nondet_bool();
   uint32_t lsid = nondet_bool() ? 1 : 0; uint64_t loff = nondet_u64();
@@ -88,6 +90,7 @@ static void embed_label_flow() {
   if (rerr == Error::kOk) { V_ASSERT(field == want, "embedded label address is base + section offset + label offset"); V_WITNESS("embed-label-address"); }
   else { V_ASSERT(field == 0, "refused label address leaves the placeholder"); if (DS != 8 && DS != 0) V_WITNESS("embed-label-address-refused"); }
 }
+template<uint32_t DS> static void embed_label_flow() { if (nondet_bool()) embed_label_flow_s<DS, 1>(); else embed_label_flow_s<DS, 0>(); }
 HARNESS h_embed_label_0() { embed_label_flow<0>(); }
 HARNESS h_embed_label_1() { embed_label_flow<1>(); }
 HARNESS h_embed_label_2() { embed_label_flow<2>(); }
@@ -113,13 +116,13 @@ HARNESS h_embed_label_invalid() {
 // ---------------------------------------------------------------------------------------------------------------------
 // embed_label_delta(label, base, DS) -> [bind either] -> relocate_to_base: the field holds (section + label) - (section + base label).
 // mode 0: main harness (region of known finding C03a excluded while it is open); mode 1: confined to that region.
-template<uint32_t DS>
-static void embed_delta_flow(int mode) {
+template<uint32_t DS, uint32_t SID>
+static void embed_delta_flow_s(int mode) {
   bool x64 = nondet_bool();
   CodeHolder* c = make_holder(x64 ? Arch::kX64 : Arch::kX86, 2);
   symbolic_buffers();
   constexpr uint32_t pos = 8;
-  uint32_t sid = nondet_bool() ? 1 : 0;
+  constexpr uint32_t sid = SID;
   BaseAssembler* a = make_asm(c, sid, pos);
   bool bound_a = nondet_bool(), bound_b = nondet_bool();
   uint32_t sa = nondet_bool() ? 1 : 0, sb = nondet_bool() ? 1 : 0; uint64_t oa = nondet_u64(), ob = nondet_u64();
@@ -167,6 +170,7 @@ static void embed_delta_flow(int mode) {
     V_WITNESS("embed-delta-refused");
   }
 }
+template<uint32_t DS> static void embed_delta_flow(int mode) { if (nondet_bool()) embed_delta_flow_s<DS, 1>(mode); else embed_delta_flow_s<DS, 0>(mode); }
 HARNESS h_embed_delta_0() { embed_delta_flow<0>(0); }
 HARNESS h_embed_delta_1() { embed_delta_flow<1>(0); }
 HARNESS h_embed_delta_2() { embed_delta_flow<2>(0); }
@@ -196,7 +200,9 @@ static void expression_eval() {
   uint64_t lv = sec(lsid)->_offset + loff;
   uint32_t op = nondet_u8() % 7, op2 = nondet_u8() % 6;   // op == 6: invalid operator
   uint64_t k1 = nondet_u64(), k2 = nondet_u64();
-  ex_outer.reset(); ex_inner.reset();
+  // (field-wise initialisation: Expression::reset() is a memset over a typed object, dear for the solver and opaque for constant propagation)
+  for (uint32_t i = 0; i < 2; i++) { ex_outer.value_type[i] = ExpressionValueType::kNone; ex_inner.value_type[i] = ExpressionValueType::kNone; ex_outer.value[i].constant = 0; ex_inner.value[i].constant = 0; }
+  for (uint32_t i = 0; i < 5; i++) { ex_outer.reserved[i] = 0; ex_inner.reserved[i] = 0; }
   ex_outer.op_type = ExpressionOpType(op); ex_inner.op_type = ExpressionOpType(op2);
   uint64_t want;
   if (SHAPE == 0) { ex_outer.set_value_as_constant(0, k1); ex_outer.set_value_as_constant(1, k2); want = ref_op(op, k1, k2); }
